@@ -172,12 +172,26 @@ def make_job(scn, family, replayer, root="Emit", mode="bfs", seed=0, sim_num=0,
 
 
 def run_jobs(jobs, procs=None):
-    procs = procs or min(len(jobs), max(1, (os.cpu_count() or 2) // 2))
-    if procs <= 1 or len(jobs) == 1:
-        return [_job_worker(j) for j in jobs]
-    ctx = mp.get_context("fork")
-    with ctx.Pool(procs) as pool:
-        return pool.map(_job_worker, jobs, chunksize=1)
+    """run all jobs against one snapshot of the spec directory (so that editing the spec
+    while a check runs cannot mix versions)"""
+    import shutil
+    import tempfile
+    from tlcrun import SPEC_DIR, SCRATCH_ROOT
+    snap = tempfile.mkdtemp(prefix="verif.spec.%d." % os.getpid(), dir=SCRATCH_ROOT)
+    for f in os.listdir(SPEC_DIR):
+        if f.endswith(".tla"):
+            shutil.copy(os.path.join(SPEC_DIR, f), snap)
+    os.environ["VERIF_SPEC_SNAPSHOT"] = snap
+    try:
+        procs = procs or min(len(jobs), max(1, (os.cpu_count() or 2) // 2))
+        if procs <= 1 or len(jobs) == 1:
+            return [_job_worker(j) for j in jobs]
+        ctx = mp.get_context("fork")
+        with ctx.Pool(procs) as pool:
+            return pool.map(_job_worker, jobs, chunksize=1)
+    finally:
+        os.environ.pop("VERIF_SPEC_SNAPSHOT", None)
+        shutil.rmtree(snap, ignore_errors=True)
 
 
 def finish(prop_id, tier, seed, level, results, t0, rule, assumptions, feature_floor=(),
